@@ -341,7 +341,8 @@ def step (s : St) (j : Json) : R (St × Json) := do
     let graphs ← (← (← j.getObjVal? "graphs").getArr?).toList.mapM decGraphIn
     let hints ← decHints (← j.getObjVal? "hints")
     let hint : Prov.Rdf.Term → Option Prov.Rdf.LitHint := fun t => (hints.find? (fun p => p.1 == t)).map (·.2)
-    match Prov.Rdf.decodeDocument s.h nss graphs hint with
+    let fltOf : String → Option FloatAtom := fun pv => (hints.find? (fun p => p.2.pv == pv && p.2.flt.isSome)).bind (·.2.flt)
+    match Prov.Rdf.decodeDocument s.h nss graphs hint fltOf with
     | (h, .ok d) => return (← { s with h := h }.bindCont j d, errJson none)
     | (h, .error e) => return ({ s with h := h }, errJson (some e))
   | "dest_path" =>
